@@ -975,10 +975,22 @@ static void do_setup(void) {
 static void free_payloads(void) {
     for (int p = 1; p <= NP; p++) if (PAY[p].ptr && !(PAY[p].autofree && vp_watch_freed[PAY[p].watch])) { vp_free(PAY[p].ptr); PAY[p].ptr = NULL; }
 }
+static int threaded;
+static VP_TLS int lsan_ctr; static VP_TLS const int *lsan_last_prog; static VP_TLS int lsan_last_n;
+static void final_lsan(void) {
+#if defined(__has_feature)
+#if __has_feature(address_sanitizer)
+    extern int __lsan_do_recoverable_leak_check(void);
+    if (!threaded && lsan_last_prog && lsan_ctr % 1024 != 1 && __lsan_do_recoverable_leak_check()) {
+        gw_mismatch(lsan_last_prog, lsan_last_n, lsan_last_n - 1, "core-lsan-leak", "LeakSanitizer: memory allocated during one of the last %d programs (all ended with the context released and every reference dropped) is unreachable; allocation stack in the driver output", (lsan_ctr - 1) % 1024);
+        if (gw_forked) gw_resume_exit();
+    }
+#endif
+#endif
+}
 static void close_user_fds(void) {
     for (int k2 = 1; k2 <= NKEY; k2++) { if (ufd_r[k2] >= 0) __real_close(ufd_r[k2]); if (ufd_w[k2] >= 0) __real_close(ufd_w[k2]); ufd_r[k2] = ufd_w[k2] = -1; }
 }
-static int threaded;
 static void on_alarm(int sig) {
     if (threaded) {      /* (several replaying threads: the signal may run on any of them) */
         static const char m[] = "MISMATCH sig=core-hang replay=- :: a program of the threaded replay did not finish within 60 s (blocked or looping)\n";
@@ -1068,12 +1080,13 @@ static int gw_run(const int *prog, int n) {
 #if defined(__has_feature)
 #if __has_feature(address_sanitizer)
     /* what the library allocates behind the allocator hook (compiled regular expressions, duplicated strings) is watched by
-       LeakSanitizer: every 2048 programs that ended (and after the first one) in a clean state everything still allocated must be reachable */
+       LeakSanitizer: every 1024 programs (each ended in a clean state or was torn down to one) and at the end of the enumeration
+       everything still allocated must be reachable */
     {
         extern int __lsan_do_recoverable_leak_check(void);
-        static VP_TLS int lsan_ctr;
-        if (!threaded && is_clean(cur_state) && ++lsan_ctr % 2048 == 1 && __lsan_do_recoverable_leak_check()) {
-            gw_mismatch(prog, n, n - 1, "core-lsan-leak", "LeakSanitizer: memory allocated during one of the last 2048 programs (all ended with the context released and every reference dropped) is unreachable; allocation stack in the driver output");
+        lsan_last_prog = prog; lsan_last_n = n;
+        if (!threaded && ++lsan_ctr % 1024 == 1 && __lsan_do_recoverable_leak_check()) {
+            gw_mismatch(prog, n, n - 1, "core-lsan-leak", "LeakSanitizer: memory allocated during one of the last 1024 programs (all ended with the context released and every reference dropped) is unreachable; allocation stack in the driver output");
             if (gw_forked) gw_resume_exit();
             return 1;
         }
@@ -1176,6 +1189,7 @@ int main(int argc, char **argv) {
     measure_order();
     gw_need_terminal = 1;
     gw_target_fn = is_clean;
+    gw_final_hook = final_lsan;
     if (getenv("VP_THREADS")) return threads_main(argc, argv);
     return gw_main(argc, argv);
 }
